@@ -2,7 +2,7 @@
 
 Cases are programs: a table of handlers (event name -> handlers with a priority and a straight-line body of
 fire(name, priority[, cancelled | stopped-before-dispatch]) / event.stop() / flush() / return <generator> / raise
-actions) and a main program of fires, flush()/tick() calls, fires on not yet registered components and register().
+actions; events are delivered on 1-3 channels, components and handlers sit on different channels) and a main program of fires, flush()/tick() calls, fires on not yet registered components and register().
 The same program is run through the real Manager and through the Coq model (Model/DispatchOrder.v); the complete log
 of fire / dispatch / handler invocation (with nesting depth) / stop / generator return / raise / flush entry is
 compared.  The oracle re-reads the property on the implementation log.
@@ -27,6 +27,8 @@ REG_NAME = 99            # registered (register()),
 FAIL_BASE = 100          # <name>_failure = FAIL_BASE + name (a handler raised and event.failure is set)
 OBS_HID = 999            # the harness' dispatch observer: a catch-all handler that runs before every generated one
 OBS_PRIO = 1000
+# pairwise different values (ints, floats, negative) for the handlers of one event name in multi-channel cases
+DPRIOS = [-2.5, -2, -1.5, -1, -0.5, 0, 0.5, 1, 2, 2.5, 3, 5.5, 7, 10]
 
 
 def evname(n):
@@ -65,22 +67,42 @@ def pack(e):
 
 
 def norm(c):
-    """upgrade cases written in the first format (one detached component, no modes) to the current one"""
-    if 'drv' in c and 'obs' in c and 'fail' in c:
+    """upgrade cases written in the earlier formats (one channel 'c', one detached component, no modes) to the current one:
+    chan = channels of the three components; handlers [hid, prio, comp, body, handler channel or None];
+    fires ['f', name, prio, mode or None, channels]; ['cf', d, name, prio, channels]; fail = [[name, channels]]"""
+    if 'chan' in c:
         return c
     c = dict(c)
     c.setdefault('drv', 'flush')
     c.setdefault('obs', True)
-    c.setdefault('fail', [])
-    prog = []
-    for a in c['prog']:
-        if a[0] == 'cf' and len(a) == 3:
-            a = ['cf', 0, a[1], a[2]]
-        elif a[0] == 'reg' and len(a) == 1:
-            a = ['reg', 0]
-        prog.append(a)
-    c['prog'] = prog
+    c['chan'] = ['c', 'c', 'c']
+    c['fail'] = [[n, ['c']] if isinstance(n, int) else n for n in c.get('fail', [])]
+
+    def act(a):
+        if a[0] == 'f':
+            return ['f', a[1], a[2], a[3] if len(a) > 3 else None, a[4] if len(a) > 4 else ['c']]
+        if a[0] == 'cf':
+            if len(a) == 3:
+                a = ['cf', 0, a[1], a[2]]
+            return a if len(a) > 4 else a + [['c']]
+        if a[0] == 'reg' and len(a) == 1:
+            return ['reg', 0]
+        return a
+    c['prog'] = [act(a) for a in c['prog']]
+    c['handlers'] = [[name, [[h[0], h[1], h[2], [act(a) for a in h[3]], h[4] if len(h) > 4 else None] for h in hs]]
+                     for name, hs in c['handlers']]
     return c
+
+
+def matches(c, h, ch):
+    """does handler h = [hid, prio, comp, body, handler channel] get an event delivered on channel ch?
+    (the documented rule: the handler's channel, else its component's; '*' on either side matches everything)"""
+    hch = h[4] if h[4] is not None else c['chan'][h[2]]
+    return ch == '*' or hch == '*' or hch == ch
+
+
+def chan_index(c):
+    return {ch: i for i, ch in enumerate(sorted(set(c['chan']) | {'*'}))}
 
 
 class C02Raise(Exception):
@@ -94,10 +116,12 @@ class Ctx:
         self.next_id = 0
         self.reg_ids = {}        # id(component) -> id of the `registered` event its register() fired
         self.ge_id = None
-        self.fail = set(case['fail'])
+        self.fail = {n: chs for n, chs in case['fail']}
+        self.root_chan = case['chan'][0]
+        self.seen = set()
 
 
-def do_fire(ctx, comp, name, prio, mode=None, log=True):
+def do_fire(ctx, comp, name, prio, mode=None, chans=('c',), log=True):
     e = Event.create(evname(name))
     if name in ctx.fail:
         e.failure = True
@@ -106,11 +130,11 @@ def do_fire(ctx, comp, name, prio, mode=None, log=True):
     if log:
         e.c02_id = ctx.next_id
         ctx.next_id += 1
-        ctx.log.append([{None: 0, 'c': 11, 's': 12}[mode], e.c02_id, name, key2(prio)])
+        ctx.log.append([{None: 0, 'c': 11, 's': 12}[mode], e.c02_id, name, key2(prio), list(chans)])
     n = len(ctx.log)
     d = ctx.depth
     try:
-        comp.fire(e, priority=prio)
+        comp.fire(e, *chans, priority=prio)
     except Exception as ex:  # fire() must not fail
         ctx.log.append([8, type(ex).__name__])
     if len(ctx.log) != n or ctx.depth != d:
@@ -157,13 +181,13 @@ def run_body(ctx, comp, body, eid, hid, event, name=None):
             if name in ctx.fail:
                 ex.c02_fail_id = ctx.next_id
                 ctx.next_id += 1
-                ctx.log.append([0, ex.c02_fail_id, FAIL_BASE + name, 0])
+                ctx.log.append([0, ex.c02_fail_id, FAIL_BASE + name, 0, list(ctx.fail[name])])
             ex.c02_exc_id = ctx.next_id
             ctx.next_id += 1
-            ctx.log.append([0, ex.c02_exc_id, EXC_NAME, 0])
+            ctx.log.append([0, ex.c02_exc_id, EXC_NAME, 0, [ctx.root_chan]])
             raise ex
         if a[0] == 'f':
-            do_fire(ctx, comp, a[1], a[2], a[3] if len(a) > 3 else None)
+            do_fire(ctx, comp, a[1], a[2], a[3], a[4])
         elif a[0] == 's':
             if event is not None:
                 event.stop()
@@ -191,10 +215,13 @@ def make_fn(ctx, hid, body, name):
 
 def build(ctx, case):
     """-> (root, child, [detached components]).  Handlers are spread over root (comp 0) and a registered child."""
-    members = [{'channel': 'c'}, {'channel': 'c'}]
+    members = [{'channel': ch} for ch in case['chan']]
     for name, hs in case['handlers']:
-        for hid, prio, comp, body in hs:
-            members[comp]['h%d' % hid] = handler(evname(name), priority=prio)(make_fn(ctx, hid, body, name))
+        for hid, prio, comp, body, hch in hs:
+            kw = {'priority': prio}
+            if hch is not None:
+                kw['channel'] = hch
+            members[comp]['h%d' % hid] = handler(evname(name), **kw)(make_fn(ctx, hid, body, name))
 
     def observer(self, event, *args, **kw):
         eid = getattr(event, 'c02_id', None)
@@ -212,17 +239,22 @@ def build(ctx, case):
                 eid = None
             if eid is not None:
                 event.c02_id = eid
-        if eid is not None:
+        if eid is not None and eid not in ctx.seen:
+            # (an event delivered on several channels reaches this catch-all once per channel as long as
+            # finding C02-multichannel-twice is open; the observer itself reports a dispatch once)
+            ctx.seen.add(eid)
             ctx.log.append([6, eid])
     observer.__name__ = 'c02_observer'
     observer.c02_hid = -1
     if case['obs']:
-        members[0]['c02_observer'] = handler(priority=OBS_PRIO)(observer)
+        members[0]['c02_observer'] = handler(priority=OBS_PRIO, channel='*')(observer)
     R = type('R', (BaseComponent,), members[0])
     S = type('S', (BaseComponent,), members[1])
-    D = type('D', (BaseComponent,), {'channel': 'c'})
+    T = type('T', (BaseComponent,), members[2])
+    D = type('D', (BaseComponent,), {'channel': case['chan'][0]})
     root = R()
     child = S().register(root)
+    T().register(root)
     for _ in range(50):
         if not len(root):
             break
@@ -236,8 +268,9 @@ def base_order(root, case):
     out = {}
     for name, hs in case['handlers']:
         ev = Event.create(evname(name))
-        got = [getattr(h, 'c02_hid', None) for h in root.getHandlers(ev, 'c')]
-        out[name] = [h for h in got if h is not None and h >= 0]
+        for ch in chan_index(case):
+            got = [getattr(h, 'c02_hid', None) for h in root.getHandlers(ev, ch)]
+            out['%d/%s' % (name, ch)] = [h for h in got if h is not None and h >= 0]
     return out
 
 
@@ -249,7 +282,7 @@ def est_events(case):
     def cnt(n):
         if n not in memo:
             memo[n] = 1 + sum((cnt(a[1]) if a[0] == 'f' else 2 if a[0] == 'r' else 0)
-                              for (_, _, _, body) in table.get(n, []) for a in body)
+                              for (_, _, _, body, _) in table.get(n, []) for a in body)
         return memo[n]
     tot = 0
     for a in case['prog']:
@@ -263,7 +296,7 @@ def est_events(case):
 
 
 def est_steps(case):
-    worst = max([sum(5 + 2 * len(b) for (_, _, _, b) in hs) for _, hs in case['handlers']] + [0])
+    worst = max([sum(5 + 2 * len(h[3]) for h in hs) for _, hs in case['handlers']] + [0])
     return 100 + 8 * len(case['prog']) + est_events(case) * (10 + worst)
 
 
@@ -278,7 +311,8 @@ class C02(Prop):
             'bodies of <= 5 actions fire(name,priority[,cancelled|stopped before dispatch]) / event.stop() / flush() / '
             'return <generator> / raise, nesting to depth 7+; main program of fires and flush() or tick() (not running / '
             'running, i.e. with generate_events) calls, fires on up to 3 not yet registered components at arbitrary points '
-            'and their register(); with and without the dispatch observer handler. non-trivial = some handler fires during '
+            'and their register(); half of the cases with components on different channels and events delivered on 1-3 channels; '
+            'with and without the dispatch observer handler. non-trivial = some handler fires during '
             'a pass and at least two distinct priority values occur, or a handler calls flush()')
     trusted_base = ['hand-written model Model/DispatchOrder.v tied to /repo by this correspondence run (complete '
                     'fire/dispatch/invoke/stop/generator-return/raise/flush-entry log compared)',
@@ -305,27 +339,72 @@ class C02(Prop):
             drv = rng.choice(['flush'] * 11 + ['tick'] * 5 + ['tickrun'] * 4)
             raises = obs and rng.random() < 0.45
             modes = rng.random() < 0.5
-            fail = [n for n in range(nn) if raises and rng.random() < 0.4]
+            # channels: half of the cases put the three components on different channels and deliver events on
+            # 1-3 channels (a small pool of channel tuples per name, so that the same (name, channels) cache key
+            # recurs, also with the channels in the other order); 'dupy' cases additionally let a handler match
+            # several of an event's channels ('*' handlers, '*' or a repeated channel among the channels)
+            multi = rng.random() < 0.5
+            dupy = multi and rng.random() < 0.2
+            if multi:
+                chan = rng.sample(['a', 'b', 'd'], 3)
+                if rng.random() < 0.2:
+                    chan[2] = chan[0]
+            else:
+                chan = ['c', 'c', 'c']
+            distinct = sorted(set(chan))
+            pool = {}
+            for name in range(nn):
+                tuples = []
+                for _ in range(rng.randint(1, 3) if multi else 1):
+                    q = rng.random()
+                    k = 1 if q < 0.45 else (2 if q < 0.85 else 3)
+                    t = rng.sample(distinct, min(k, len(distinct)))
+                    if dupy and rng.random() < 0.4:
+                        t.insert(rng.randint(0, len(t)), rng.choice(['*', t[0]]))
+                    elif multi and k == 1 and rng.random() < 0.15:
+                        t = ['*']
+                    tuples.append(t)
+                    if len(t) > 1 and rng.random() < 0.5:
+                        tuples.append(t[::-1])
+                pool[name] = tuples
+            fail = [[n, pool[n][0]] for n in range(nn) if raises and rng.random() < 0.4]
+            for n, t in fail:
+                pool[n] = [t]
             hid = 0
             handlers = []
             few = rng.random() < 0.3
             pr = rng.sample(PRIOS, rng.randint(2, 4)) if few else PRIOS
 
+            def hprios(k):
+                # handlers of one event name: with several channels in play the order of equal-priority handlers is
+                # not determined by the property (nor stable under repairs of the union), so they get distinct values
+                return rng.sample(DPRIOS, k) if multi else [rng.choice(pr) for _ in range(k)]
+
+            # (handlers sit on the third component only when priorities are distinct: the iteration order of the
+            # root's set of children, hence the order of equal-priority handlers, changes when components register)
+            def hchan():
+                q = rng.random()
+                if dupy and q < 0.2:
+                    return '*'
+                if multi and q < 0.3:
+                    return rng.choice(distinct)
+                return None
+
             def fire(tgt):
-                a = ['f', tgt, rng.choice(pr)]
+                a = ['f', tgt, rng.choice(pr), None, rng.choice(pool[tgt])]
                 if modes:
                     q = rng.random()
                     if q < 0.12:
-                        a.append('c')
+                        a[3] = 'c'
                     elif q < 0.24:
-                        a.append('s')
+                        a[3] = 's'
                 return a
 
             for name in range(nn):
                 r = rng.random()
                 nh = 0 if r < 0.08 else (1 if r < 0.4 else (2 if r < 0.75 else 3))
                 hs = []
-                for _ in range(nh):
+                for hp in hprios(nh):
                     body = []
                     for _ in range(rng.choice([0, 1, 1, 2, 2, 3, 4])):
                         q = rng.random()
@@ -349,15 +428,15 @@ class C02(Prop):
                             body.insert(rng.randint(0, len(body) - 1), end)
                         else:
                             body.append(end)
-                    hs.append([hid, rng.choice(pr), rng.randint(0, 1), body])
+                    hs.append([hid, hp, rng.randint(0, 2 if multi else 1), body, hchan()])
                     hid += 1
                 handlers.append([name, hs])
             if raises:      # handlers of the reserved events: they fire nothing (termination) and do not raise
-                for rn in [EXC_NAME] + [FAIL_BASE + n for n in fail]:
+                for rn in [EXC_NAME] + [FAIL_BASE + n for n, _ in fail]:
                     hs = []
-                    for _ in range(rng.choice([0, 1, 1, 2])):
+                    for hp in hprios(rng.choice([0, 1, 1, 2])):
                         body = [rng.choice([['x'], ['s'], ['g', 1], ['x']]) for _ in range(rng.randint(0, 2))]
-                        hs.append([hid, rng.choice(pr), rng.randint(0, 1), body])
+                        hs.append([hid, hp, rng.randint(0, 2 if multi else 1), body, hchan()])
                         hid += 1
                     handlers.append([rn, hs])
             prog = []
@@ -368,17 +447,20 @@ class C02(Prop):
                     prog.append(['x'])
             if kind == 'drain':
                 # fires on up to three detached components at arbitrary points, each registered later on (or never)
+                def cfire(d):
+                    n = rng.randint(0, nn - 1)
+                    return ['cf', d, n, rng.choice(pr), rng.choice(pool[n])]
                 for d in range(rng.randint(1, 3)):
                     pos = sorted(rng.randint(0, len(prog)) for _ in range(rng.randint(1, 4)))
                     for i, p in enumerate(pos):
-                        prog.insert(p + i, ['cf', d, rng.randint(0, nn - 1), rng.choice(pr)])
+                        prog.insert(p + i, cfire(d))
                     if rng.random() < 0.9:
                         last = max(i for i, a in enumerate(prog) if a[0] == 'cf' and a[1] == d)
                         prog.insert(rng.randint(last + 1, len(prog)), ['reg', d])
                         if rng.random() < 0.4:
-                            prog.append(['cf', d, rng.randint(0, nn - 1), rng.choice(pr)])
+                            prog.append(cfire(d))
             prog += [['x']] * (nn + 3)
-            case = {'k': kind, 'obs': obs, 'drv': drv, 'fail': fail, 'handlers': handlers, 'prog': prog}
+            case = {'k': kind, 'obs': obs, 'drv': drv, 'chan': chan, 'fail': fail, 'handlers': handlers, 'prog': prog}
             if est_events(case) <= (160 if tier == "thorough" else 45):
                 return case
 
@@ -411,28 +493,28 @@ class C02(Prop):
                 if a[0] == 'cf':
                     d = a[1]
                     if registered[d]:
-                        do_fire(ctx, dets[d], a[2], a[3])
+                        do_fire(ctx, dets[d], a[2], a[3], None, a[4])
                     else:                     # sits in the component's own queue until register()
-                        pend[d].append((do_fire(ctx, dets[d], a[2], a[3], log=False), a[2], a[3]))
+                        pend[d].append((do_fire(ctx, dets[d], a[2], a[3], None, a[4], log=False), a[2], a[3], a[4]))
                 elif a[0] == 'reg':
                     d = a[1]
                     if not registered[d]:
                         dets[d].register(root)    # drains its queue into root's, then fires registered(det, root)
                         registered[d] = True
-                        for e, name, prio in pend[d]:     # arrival in the root queue = their fire order
+                        for e, name, prio, chans in pend[d]:     # arrival in the root queue = their fire order
                             e.c02_id = ctx.next_id
                             ctx.next_id += 1
-                            ctx.log.append([0, e.c02_id, name, key2(prio)])
+                            ctx.log.append([0, e.c02_id, name, key2(prio), list(chans)])
                             drained += 1
                         pend[d] = []
                         ctx.reg_ids[id(dets[d])] = ctx.next_id
-                        ctx.log.append([0, ctx.next_id, REG_NAME, 0])
+                        ctx.log.append([0, ctx.next_id, REG_NAME, 0, [c['chan'][0]]])
                         ctx.next_id += 1
                 elif a[0] == 'x':
                     if running:               # tick() fires generate_events before it flushes
                         ctx.ge_id = ctx.next_id
                         ctx.next_id += 1
-                        ctx.log.append([0, ctx.ge_id, GE_NAME, 0])
+                        ctx.log.append([0, ctx.ge_id, GE_NAME, 0, ['*']])
                     do_flush(ctx, root, 'flush' if c['drv'] == 'flush' else 'tick')
                 else:
                     run_body(ctx, root, [a], None, None, None)
@@ -459,6 +541,8 @@ class C02(Prop):
         st['cancelled_fires'] += sum(1 for e in log if e[0] == 11)
         st['prestopped_fires'] += sum(1 for e in log if e[0] == 12)
         st['drained_events'] += drained
+        st['multichannel_fires'] = st.get('multichannel_fires', 0) + sum(1 for e in log if e[0] in (0, 11, 12) and len(e[4]) > 1)
+        st['multichannel_cases'] = st.get('multichannel_cases', 0) + (1 if len(set(c['chan'])) > 1 else 0)
         if not c['obs']:
             st['no_observer_cases'] += 1
         if md > 1:
@@ -467,18 +551,24 @@ class C02(Prop):
             st['mixed_priority_cases'] += 1
         if c['k'] == 'drain':
             st['drain_cases'] += 1
-        return {'log': log, 'final': final}
+        res = {'log': log, 'final': final}
+        self._obs = getattr(self, '_obs', {})
+        self._obs[common.canon(c0)] = res
+        return res
 
     # ------------------------------------------------------------------ model
     @staticmethod
-    def _fire(name, prio, mode=None):
-        return '%s %d (%d)' % ({None: 'F', 'c': 'FC', 's': 'FS'}[mode], name, key2(prio))
+    def _chs(idx, chans):
+        return '[%s]' % ';'.join(str(idx[ch]) for ch in chans)
 
-    def _body(self, body, name, fail):
+    def _fire(self, idx, name, prio, mode, chans):
+        return '%s %d (%d) %s' % ({None: 'F', 'c': 'FC', 's': 'FS'}[mode], name, key2(prio), self._chs(idx, chans))
+
+    def _body(self, c, idx, body, name, fail):
         out = []
         for a in body:
             if a[0] == 'f':
-                out.append(self._fire(a[1], a[2], a[3] if len(a) > 3 else None))
+                out.append(self._fire(idx, a[1], a[2], a[3], a[4]))
             elif a[0] == 'x':
                 out.append('X')
             elif a[0] == 's':
@@ -486,29 +576,31 @@ class C02(Prop):
             elif a[0] == 'g':
                 out.append('G')
             elif a[0] == 'r':
-                out.append('RA (%d)' % (FAIL_BASE + name if name in fail else -1))
+                fs = ['(%d, %s)' % (FAIL_BASE + name, self._chs(idx, fail[name]))] if name in fail else []
+                fs.append('(%d, %s)' % (EXC_NAME, self._chs(idx, [c['chan'][0]])))
+                out.append('RA [%s]' % '; '.join(fs))
         return '[%s]' % '; '.join(out)
 
-    def _prog(self, c, running):
+    def _prog(self, c, idx, running):
         """the main program in arrival order: fires on a detached component count at its register()"""
         out = []
         registered, pend = {}, {}
         for a in c['prog']:
             if a[0] == 'f':
-                out.append(self._fire(a[1], a[2], a[3] if len(a) > 3 else None))
+                out.append(self._fire(idx, a[1], a[2], a[3], a[4]))
             elif a[0] == 'cf':
                 if registered.get(a[1]):
-                    out.append(self._fire(a[2], a[3]))
+                    out.append(self._fire(idx, a[2], a[3], None, a[4]))
                 else:
-                    pend.setdefault(a[1], []).append(self._fire(a[2], a[3]))
+                    pend.setdefault(a[1], []).append(self._fire(idx, a[2], a[3], None, a[4]))
             elif a[0] == 'reg':
                 if not registered.get(a[1]):
                     registered[a[1]] = True
                     out.extend(pend.pop(a[1], []))
-                    out.append('F %d 0' % REG_NAME)
+                    out.append('F %d 0 %s' % (REG_NAME, self._chs(idx, [c['chan'][0]])))
             elif a[0] == 'x':
                 if running:
-                    out.append('F %d 0' % GE_NAME)
+                    out.append('F %d 0 %s' % (GE_NAME, self._chs(idx, ['*'])))
                 out.append('X')
         return '[%s]' % '; '.join(out)
 
@@ -519,24 +611,39 @@ class C02(Prop):
         order = self._sched.get(key)
         if order is None:
             return None
+        obsd = getattr(self, '_obs', {}).get(key)
+        if obsd is not None:
+            # a case on which the implementation shows the recorded open finding is not compared with the model of
+            # the repaired dispatcher; it is reported through the oracle as KNOWN-FINDING (DESIGN 3.5)
+            w = self.oracle(c0, obsd)
+            if w and self.finding_class(c0, obsd, w):
+                return None
         c = norm(c0)
-        fail = set(c['fail'])
+        idx = chan_index(c)
+        fail = {n: chs for n, chs in c['fail']}
         obs = 'H %d (%d) []' % (OBS_HID, key2(OBS_PRIO))
-        rows, seen = [], set()
+        names = []
+        rows, ords = [], []
         for name, hs in c['handlers']:
-            seen.add(name)
-            byid = {h[0]: h for h in hs}
-            ids = [i for i in order.get(name, []) if i in byid]
-            ids += [h[0] for h in hs if h[0] not in ids]      # (handlers the implementation did not report)
-            hl = ['H %d (%d) %s' % (i, key2(byid[i][1]), self._body(byid[i][3], name, fail)) for i in ids]
+            names.append(name)
+            hl = ['H %d (%d) %s' % (h[0], key2(h[1]), self._body(c, idx, h[3], name, fail)) for h in hs]
             if c['obs']:
                 hl.insert(0, obs)
             rows.append('R %d [%s]' % (name, '; '.join(hl)))
         if c['obs']:          # the observer is a handler of every event, also of the ones the core fires
             for name in [GE_NAME, EXC_NAME, REG_NAME] + [FAIL_BASE + n for n in sorted(fail)]:
-                if name not in seen:
+                if name not in names:
+                    names.append(name)
                     rows.append('R %d [%s]' % (name, obs))
-        return 'obs_run [%s] %d%%nat %s' % ('; '.join(rows), est_steps(c), self._prog(c, self._ge.get(key, c['drv'] == 'tickrun')))
+        for name in names:     # getHandlers(event, channel) order per (name, channel), as read from the implementation
+            for ch, i in sorted(idx.items(), key=lambda t: t[1]):
+                ids = list(order.get('%d/%s' % (name, ch), []))
+                if c['obs']:
+                    ids.insert(0, OBS_HID)
+                if ids:
+                    ords.append('O %d %d [%s]' % (name, i, ';'.join(map(str, ids))))
+        return 'obs_run [%s] [%s] %d%%nat %s' % ('; '.join(rows), '; '.join(ords), est_steps(c),
+                                                 self._prog(c, idx, self._ge.get(key, c['drv'] == 'tickrun')))
 
     def obs_for_model(self, c, obs):
         if isinstance(obs, dict) and '__crash__' in obs:
@@ -556,7 +663,13 @@ class C02(Prop):
             for h in hs:
                 hprio[h[0]] = h[1]
                 hname[h[0]] = name
+        hrec = {h[0]: h for _, hs in c['handlers'] for h in hs}
         fired = {}            # eid -> (name, 2*priority, fire index, mode)
+        chans_of = {}         # eid -> channels the event is delivered on
+
+        def want(eid):
+            # the handlers of the event: those of its name that listen on at least one of its channels
+            return [h for h in byname.get(fired[eid][0], []) if any(matches(c, hrec[h], ch) for ch in chans_of[eid])]
         queued, pending = [], []
         dispatched, invoked, stopped_by = set(), {}, {}
         frames = [{'h': None, 'inflush': 0}]
@@ -565,7 +678,7 @@ class C02(Prop):
             # a cancelled event is popped without any handler; without the observer an event that has no
             # handler is popped unseen as well.  Nothing of the program runs while that happens.
             name, _, _, mode = fired[eid]
-            return mode == 'c' or (not has_obs and not byname.get(name))
+            return mode == 'c' or (not has_obs and not want(eid))
 
         def strip():
             while pending and invisible(pending[0]):
@@ -604,6 +717,7 @@ class C02(Prop):
                 if e[1] in fired:
                     return 'event id %d fired twice' % e[1]
                 fired[e[1]] = (e[2], e[3], len(fired), {0: None, 11: 'c', 12: 's'}[t])
+                chans_of[e[1]] = e[4] if len(e) > 4 else ['c']
                 queued.append(e[1])
             elif t == 4:
                 frames[-1]['inflush'] += 1
@@ -644,6 +758,8 @@ class C02(Prop):
                     return 'handler %d ran for event %d after stop() was called by handler %d' % (hid, eid, g)
                 if hid in invoked[eid]:
                     return 'handler %d invoked twice for event %d' % (hid, eid)
+                if hid not in want(eid):
+                    return 'handler %d invoked for event %d delivered on %r, none of which it listens on' % (hid, eid, chans_of[eid])
                 if invoked[eid] and hprio[invoked[eid][-1]] < hprio[hid]:
                     return 'handler %d (priority %r) ran after handler %d (priority %r) for event %d' % (
                         hid, hprio[hid], invoked[eid][-1], hprio[invoked[eid][-1]], eid)
@@ -666,7 +782,7 @@ class C02(Prop):
             if eid not in dispatched:
                 return 'event %d (%s) was fired but not dispatched by the %d following flush passes' % (
                     eid, evname(name), sum(1 for a in c['prog'] if a[0] == 'x'))
-            want = byname.get(name, [])
+            want_ = want(eid)
             got = invoked.get(eid, [])
             if mode == 'c':
                 if got:
@@ -675,13 +791,28 @@ class C02(Prop):
                 pass      # stop() from outside before the dispatch: the statement does not speak about it
             elif eid in stopped_by:
                 g = stopped_by[eid]
-                missing = [h for h in want if hprio[h] > hprio[g] and h not in got]
+                missing = [h for h in want_ if hprio[h] > hprio[g] and h not in got]
                 if missing:
                     return 'handlers %r of higher priority than the stopping handler %d did not run for event %d' % (missing, g, eid)
-            elif sorted(got) != sorted(want):
-                return 'event %d (never stopped): handlers invoked %r, registered %r' % (eid, got, want)
+            elif sorted(got) != sorted(want_):
+                return 'event %d (never stopped) on %r: handlers invoked %r, listening %r' % (eid, chans_of[eid], got, want_)
         if obs['final'][2] != 0:
             return 'queue not empty after the final flushes'
+        return None
+
+    def finding_class(self, c0, obs, what):
+        """C02-multichannel-twice: a handler that matches several of the channels an event is delivered on (a '*'
+        handler, '*' or a repeated channel among the channels) is invoked once per matching channel"""
+        import re
+        m = re.match(r'handler (\d+) invoked twice for event (\d+)$', what or '')
+        if not m or isinstance(obs, dict) and '__crash__' in obs:
+            return None
+        c = norm(c0)
+        hid, eid = int(m.group(1)), int(m.group(2))
+        hrec = {h[0]: h for _, hs in c['handlers'] for h in hs}
+        chans = next((e[4] for e in obs['log'] if e[0] in (0, 11, 12) and e[1] == eid and len(e) > 4), None)
+        if hid in hrec and chans and sum(1 for ch in chans if matches(c, hrec[hid], ch)) >= 2:
+            return 'C02-multichannel-twice'
         return None
 
     def nontrivial(self, c, obs):
